@@ -29,7 +29,8 @@ import logging
 logging.disable(logging.CRITICAL)
 
 from sc3.synth.synthdef import SynthDef
-from sc3.synth.synthdesc import SynthDesc
+from sc3.synth.synthdesc import SynthDesc, SynthDescLib
+import sc3.base.main as _main
 from sc3.synth import ugen as ugn
 from sc3.synth import _graphparam as gpp
 import sc3.synth.ugens as ugs
@@ -63,7 +64,10 @@ METH_RATE = {'ar': 'audio', 'kr': 'control', 'ir': 'scalar', 'dr': 'demand', 'ne
 
 
 def f32word(x):
-    return struct.unpack('>I', struct.pack('>f', x))[0]
+    try:
+        return struct.unpack('>I', struct.pack('>f', x))[0]
+    except (OverflowError, struct.error, TypeError):
+        return -1
 
 
 def flat(x):
@@ -307,6 +311,76 @@ def take_bytes(sd):
     return b
 
 
+def truth_units(sd):
+    """The emitted units as the live objects describe themselves (not through any writer)."""
+    out = []
+    for u in sd._children:
+        ins = []
+        for i in u.inputs:
+            if isinstance(i, bool) or isinstance(i, (int, float)):
+                try:
+                    ins.append([-1, sd._constants[float(i)]])
+                except KeyError:
+                    ins.append([-1, -7])
+            elif isinstance(i, ugn.SynthObject):
+                ins.append([i._synth_index, i._output_index])
+            else:
+                ins.append([-9, -9])          # a sequence or something else that is not a wire
+        rate = RATE.get(u.rate, 0)
+        if isinstance(u, ugn.MultiOutUGen):
+            outs = [RATE.get(ch.rate, 0) for ch in u._channels]
+        elif isinstance(u, iou.AbstractOut):
+            outs = []
+        else:
+            outs = [rate] * u._num_outputs()
+        out.append([type(u).__name__, rate, ins, outs, u._special_index])
+    return out
+
+
+def truth_consts(sd):
+    ks = [None] * len(sd._constants)
+    for v, i in sd._constants.items():
+        ks[i] = f32word(v)
+    return ks
+
+
+def cache_probe(prog, sd, b):
+    """as_bytes() caching and aliasing: the cached value, the value after add(), the bytes of a second
+    SynthDef built from the same program, and a lazily serialised older SynthDef after another build."""
+    bad = []
+    try:
+        m1 = sd.as_bytes()
+        m2 = sd.as_bytes()                      # served from self._bytes
+        if bytes(m1) != b or bytes(m2) != b:
+            bad.append('cached as_bytes() differs from the first result')
+        other = build_one(prog)                 # same program again, before sd is looked at again
+        if bytes(sd.as_bytes()) != b:
+            bad.append('as_bytes() changed after another SynthDef was built')
+        ob = take_bytes(other)
+        if ob != b:
+            bad.append('a second SynthDef built from the same program gives different bytes')
+        try:
+            sd.add()                             # description library + no booted server
+            if bytes(sd.as_bytes()) != b:
+                bad.append('as_bytes() changed after add()')
+            lib = SynthDescLib.get_lib('default')
+            d = lib.synth_descs.get(sd.name)
+            if d is None or d.name != sd.name:
+                bad.append('add() did not register a description under the definition name')
+            else:
+                lib.synth_descs.pop(sd.name, None)
+        except Exception as e:
+            bad.append('add() raised ' + exc_chain(e)[0])
+        sd._bytes = None
+        try:
+            m1.release(); m2.release()
+        except Exception:
+            pass
+    except Exception as e:
+        bad.append('cache probe raised ' + exc_chain(e)[0])
+    return bad
+
+
 def run_case(prog):
     res = {'status': 'ok', 'exc': [], 'bytes': None, 'order': [], 'names3': [], 'desc': None,
            'desc_exc': None, 'base': None, 'nunits': 0}
@@ -330,7 +404,10 @@ def run_case(prog):
         CN_RATE = {'scalar': 0, 'trigger': 1, 'control': 1, 'audio': 2}
         res['decl'] = [[cn.name, cn.index, CN_RATE.get(cn.rate, -1), [f32word(x) for x in utl.as_list(cn.default_value)]]
                        for cn in sd._all_control_names if cn.rate != 'noncontrol']
+        res['truth'] = truth_units(sd)
+        res['truthk'] = truth_consts(sd)
         if res['bytes'] is not None:
+            res['cache'] = cache_probe(prog, sd, b)
             try:
                 res['desc'] = canon_desc(SynthDesc.new_from(sd))
             except Exception as e:
@@ -340,11 +417,21 @@ def run_case(prog):
             except Exception as e:
                 res['defname'] = None
                 res['defname_exc'] = ' <- '.join(exc_chain(e))
+            if _main.main._current_synthdef is not None:
+                res['leak'] = 'main._current_synthdef is still set after SynthDesc.new_from'
+                _main.main._current_synthdef = None
             try:
                 if take_bytes(sd) != b:
                     res['desc_exc'] = 'as_bytes() is not stable'
             except Exception as e:
                 res['desc_exc'] = 'second as_bytes() raised'
+    if _main.main._current_synthdef is not None:
+        res['leak'] = 'main._current_synthdef is still set after the build / as_bytes'
+        _main.main._current_synthdef = None
+    if not _main.main._def_build_lock.acquire(blocking=False):
+        res['leak'] = 'main._def_build_lock is still held'
+    else:
+        _main.main._def_build_lock.release()
     if prog.get('base'):
         # the same graph under the neutral name 'n' and without variants: the structure the
         # model's writer is applied to when the real name / the variants make the writer raise
@@ -370,4 +457,5 @@ def main():
     json.dump({'out': out}, open(sys.argv[2], 'w'))
 
 
-main()
+if __name__ == '__main__':
+    main()
